@@ -62,6 +62,35 @@ func (r *Reader) Pump() {
 	}
 }
 
+// PumpReturn is Pump for the case in which the outstanding Read is known to return without new
+// input (e.g. a deadline was just armed under virtual time): it first waits for that call to come
+// back — ScriptConn.Wait alone could still see the reader parked from before the wake-up.
+func (r *Reader) PumpReturn(limit time.Duration) {
+	if r.Err != nil || r.Panic != nil {
+		return
+	}
+	if r.buf == nil {
+		r.buf = make([]byte, r.Max)
+	}
+	if r.op == nil {
+		r.op = r.SC.Start(func() { r.n, r.err = r.Conn.Read(r.buf) })
+	}
+	for t0 := time.Now(); !r.op.Done() && time.Since(t0) < limit; {
+		time.Sleep(20 * time.Microsecond)
+	}
+	if r.op.Done() {
+		r.Pump()
+	}
+}
+
+// TakeErr returns and forgets the error the last Read reported (used when the harness itself
+// provoked it, e.g. a read-deadline timeout), so that pumping can continue.
+func (r *Reader) TakeErr() error {
+	e := r.Err
+	r.Err, r.err = nil, nil
+	return e
+}
+
 // Sizes returns the chunk sizes of one segmentation of `total` bytes. bounds are the
 // interesting offsets (message boundaries). The rest after the listed sizes is one chunk.
 func Sizes(rng *vlib.Rng, kind string, total int, bounds []int) []int {
